@@ -854,6 +854,8 @@ class StmtMixin(CallMixin):
                 # the invariant speaks of a local the code no longer has: it cannot be established (an obligation that
                 # fails) and gives nothing to rely on (assumed as True); what depended on it goes to the witness search
                 self.note("invariant %s of loop #%d of %s: %s - not established" % (l, spec.ordinal, self.c.qual, ex))
+                if not assume:
+                    self.__dict__.setdefault("_undecidable_invs", {})[(spec.ordinal, l)] = str(ex)
                 out.append((l, z3.BoolVal(bool(assume))))
         return out
 
@@ -875,7 +877,8 @@ class StmtMixin(CallMixin):
                 extra0.update(self.dom_ghost(dv, "init", s0))
             # inv-init
             for lbl, g in self.inv_bool(spec, s0, extra0):
-                self.oblige(s0, "inv-init", "loop%d:%s" % (spec.ordinal, lbl), g, line)
+                und = getattr(self, "_undecidable_invs", {}).get((spec.ordinal, lbl))
+                self.oblige(s0, "inv-init", "loop%d:%s" % (spec.ordinal, lbl), g, line, assume=not und, undecidable=und)
             # arbitrary iteration
             sh = s0.copy()
             ord_body = self.loop_ord
@@ -951,7 +954,8 @@ class StmtMixin(CallMixin):
             if o.kind in ("fall", "continue"):
                 extra = self.dom_ghost(dv, "next", o.st) if dv is not None else {}
                 for lbl, g in self.inv_bool(spec, o.st, extra):
-                    self.oblige(o.st, "inv-keep", "loop%d:%s" % (spec.ordinal, lbl), g, line, assume=False)
+                    self.oblige(o.st, "inv-keep", "loop%d:%s" % (spec.ordinal, lbl), g, line, assume=False,
+                                undecidable=getattr(self, "_undecidable_invs", {}).get((spec.ordinal, lbl)))
                 if var0 is not None:
                     v1 = self.spec_eval(spec.decreases, o.st, extra=extra, old=self.entry)
                     self.oblige(o.st, "term", "loop%d:decreases" % spec.ordinal, v1.t < var0.t, line, assume=False)
